@@ -33,3 +33,4 @@ package swisscard
 //@        && built(dyn(targ("Add", 0, old(tlen()) + 4), "*transaction.Transaction").Postings[0], dyn(targ("Add", 0, old(tlen()) + 4), "*transaction.Transaction").Postings[1],
 //@             posting.Builder{Credit: p.account, Debit: dyn(targ("Add", 0, old(tlen()) + 4), "*transaction.Transaction").Postings[1].Account == p.account ? dyn(targ("Add", 0, old(tlen()) + 4), "*transaction.Transaction").Postings[0].Account : dyn(targ("Add", 0, old(tlen()) + 4), "*transaction.Transaction").Postings[1].Account,
 //@                 Commodity: tres("MustGet", old(tlen()) + 2), Quantity: tres("NewFromString", old(tlen()) + 3)})
+//@   ensures [C13] @text: result == nil ==> quotable(dyn(targ("Add", 0, old(tlen()) + 4), "*transaction.Transaction").Description)
